@@ -45,8 +45,8 @@ const rev = 54460
 
 // history ops: 0,1,2 append value #n; 3 reset; 4 prepare; 5 encode block; 6 write block + flush; 7 decode valid data;
 // 8 failed decode (truncated data); 9 append two rows at once; 10 append bulkN distinct values; 11 decode a block of
-// bulkN distinct values; 12 the column is inferred again with another definition of the same names (kinds that have one)
-const nHOps = 13
+// bulkN distinct values; 13 decode a block of zero rows; 12 the column is inferred again with another definition of the same names (kinds that have one)
+const nHOps = 14
 
 // bulkN distinct-ish values are enough to leave one-byte LowCardinality keys
 var bulkN = 260
@@ -142,13 +142,14 @@ func (h *hrun) do(op int) {
 		}
 		h.tw.Emit(map[string]any{"ev": "Encode", "how": map[int]string{5: "EncodeRawBlock", 6: "WriteColumn+Flush"}[op], "bytes": colgen.Ints(out),
 			"rows": col.Rows(), "err": errStr(err)})
-	case 7, 8, 11:
-		if col.Rows() != 0 {
-			return // decoding is only defined into an empty (fresh or reset) column
-		}
+	case 7, 8, 11, 13:
+		// (a block is decoded through Results.DecodeResult, which empties its targets first: whatever the column holds)
 		data := []any{h.v[1], h.v[0], h.v[1]}
 		if op == 11 {
 			data = h.bulkValues(1234)
+		}
+		if op == 13 {
+			data = []any{} // a block with the column and no rows (the header block of every result)
 		}
 		enc := h.encodeFresh(data)
 		// skip the raw block header (columns, rows, name, type, flag) to get at state + column data
@@ -253,7 +254,7 @@ func historyMain(args []string) error {
 				runHist(v0, append([]int(nil), seq...))
 				return
 			}
-			for op := 0; op < 10; op++ {
+			for _, op := range []int{0, 1, 2, 3, 4, 5, 6, 7, 8, 13} {
 				seq[i] = op
 				rec(i + 1)
 			}
@@ -261,7 +262,7 @@ func historyMain(args []string) error {
 		rec(0)
 		if historyAlt(k) != nil {
 			// kinds with a second definition: every history over append / reset / prepare / encode / decode / re-infer
-			alpha := []int{0, 1, 3, 4, 5, 7, 12}
+			alpha := []int{0, 1, 3, 4, 5, 7, 12, 13}
 			seq2 := make([]int, *depth+1)
 			var rec2 func(i int)
 			rec2 = func(i int) {
